@@ -273,11 +273,15 @@ fn main() {
                             }
                         })),
                         ("serde", Box::new(|| {
-                            let j = serde_json::to_string(rec).unwrap();
-                            let _: Result<cooklang::ScalableRecipe, _> = serde_json::from_str(&j);
+                            // an Err from the serializer (e.g. a YAML key that is not a string) is a
+                            // returned value, not a panic: whether recipes survive JSON is C15's subject
+                            if let Ok(j) = serde_json::to_string(rec) {
+                                let _: Result<cooklang::ScalableRecipe, _> = serde_json::from_str(&j);
+                            }
                             let scaled = fresh().scale(3.0, conv);
-                            let j = serde_json::to_string(&scaled).unwrap();
-                            let _: Result<cooklang::ScaledRecipe, _> = serde_json::from_str(&j);
+                            if let Ok(j) = serde_json::to_string(&scaled) {
+                                let _: Result<cooklang::ScaledRecipe, _> = serde_json::from_str(&j);
+                            }
                         })),
                     ];
                     for (name, st) in stages {
